@@ -44,8 +44,27 @@ NoMemo == [k \in MemoKeys |-> <<>>]          \* <<>> = empty, <<state>> = filled
 (* ---- the specification --------------------------------------------------- *)
 (* st : object id -> structural state;  memo : id -> key -> <<>> | <<state at fill time>>
    (memo is the as-built bookkeeping; the specification never lets it go stale) *)
+(* normalize_hydrogen_bondlengths is the other in-place state change of the API: every hydrogen bonded to C, N, O or B is
+   moved along its bond to the neutron X-H distance, nothing else moves.  The new positions are not on the exact grid: from
+   then on the state of the object is known by its signature only (a digest of the exact floats of cell and coordinates) -
+   an "opaque" state [choice, opq].  What the specification says about an opaque state is what it says about any state:
+   queries leave it alone and answer as a fresh object in that state would; a switch to the setting the object is in
+   leaves it alone, a switch to the other one produces a new state. *)
+NeutronXH1000 == (6 :> 1083 @@ 7 :> 1009 @@ 8 :> 983 @@ 5 :> 1180)
+IsOpaque(s) == "opq" \in DOMAIN s
+Opaque(choice, sig) == [choice |-> choice, opq |-> sig]
+(* atoms: per asymmetric-unit atom [z, moved, xz (element it is bonded to, 0 if none), len1000 (that bond length x 1000)] *)
+NormalizeClause(atoms) ==
+  IF \E i \in DOMAIN atoms : atoms[i].z # 1 /\ atoms[i].moved THEN "HeavyAtomMoved" ELSE
+  IF \E i \in DOMAIN atoms : atoms[i].z = 1 /\ atoms[i].xz \notin DOMAIN NeutronXH1000 /\ atoms[i].moved THEN "UnlistedHydrogenMoved" ELSE
+  IF \E i \in DOMAIN atoms : atoms[i].z = 1 /\ atoms[i].xz \in DOMAIN NeutronXH1000
+                              /\ (atoms[i].len1000 - NeutronXH1000[atoms[i].xz] > 1 \/ NeutronXH1000[atoms[i].xz] - atoms[i].len1000 > 1)
+     THEN "BondLength" ELSE ""
 SpecQuery(st, i, q) == st                                  \* queries do not change the state
-SpecSwitch(st, i, ch) == [st EXCEPT ![i] = SwitchTrigonal(st[i], ch)]
+SpecSwitch(st, i, ch) == [st EXCEPT ![i] = IF IsOpaque(st[i]) THEN (IF st[i].choice = ch THEN st[i] ELSE Opaque(ch, <<ch, st[i].opq>>))
+                                             ELSE SwitchTrigonal(st[i], ch)]
+(* design level: the normalised state of s is a state of its own (idempotent) *)
+SpecNormalize(st, i) == [st EXCEPT ![i] = IF IsOpaque(st[i]) THEN st[i] ELSE Opaque(st[i].choice, st[i])]
 (* a request the object cannot honour - a setting switch on a group without hexagonal/rhombohedral choices, or a choice
    that is neither H nor R - is refused (with or without an exception) and leaves the object as it was *)
 HasHRChoices(number) == number \in {146, 148, 155, 160, 161, 166, 167}
